@@ -4551,6 +4551,142 @@ def k_map_find_value(E, tier):
     return rec
 
 
+def k_declaration_arms(E, tier):
+    """C21: the declaration arms of handle_item (`name: value`, custom properties, `name: value { … }`): the
+    value is evaluated once; a declaration whose value is not null is handed to the destination exactly
+    once, with that evaluated value; the arm completes only if that push succeeded, and every failure
+    (evaluation, invalid CSS, a destination that refuses the declaration) is returned as the error — a
+    declaration is skipped silently only when its value is null."""
+    items = E.load_enum("sass/item.rs", "Item", "sass::item::Item")
+    f = E.find(name="handle_item")
+    rec = Rec("handle_item (Property / CustomProperty / NamespaceRule arms)", f, E)
+    for arm in ("Property", "CustomProperty", "NamespaceRule"):
+        ctx = E.ctx()
+        item = sym.Opaque("sass::item::Item", "item", ctx)
+        ctx.assumptions.append("(= %s %s)" % (item.discriminant().term, bvlit(items.index(arm), 64)))
+        isnull = ctx.fresh_scalar("bool", "value_is_null")
+
+        def full(ex, st, x):
+            while isinstance(x, sym.Ref):
+                x = ex.deref(st, x)
+            return x
+
+        def fork(name, okv=None):
+            def m(ex, st, c, a, d, ctx=ctx):
+                ok, err = st.fork(), st.fork()
+                e = sym.Event(name, a, None, len(st.pc))
+                e.rargs = [full(ex, st, x) for x in a]
+                v = okv(ctx, e) if okv else sym.Unit()
+                e.result = v
+                ok.events.append(e)
+                e2 = sym.Event(name + "-failed", a, None, len(st.pc))
+                err.events.append(e2)
+                return [(ok, sym.Agg(d, "Ok", {"0": v}, 0)), (err, sym.Agg(d, "Err", {"0": sym.Opaque("Error", name + "-error", ctx)}, 1))]
+            return m
+
+        def m_take_value(ex, st, c, a, d):
+            return full(ex, st, a[0])
+
+        def m_is_null(ex, st, c, a, d):
+            st.events.append(sym.Event("is_null", [full(ex, st, a[0])], None, len(st.pc)))
+            return isnull
+
+        def m_wrap(ex, st, c, a, d):
+            # `.at(pos)` / `.no_pos()` / `valid_css()` keep Ok/Err and wrap the payload
+            x = a[0]
+            if isinstance(x, sym.Agg) and x.variant in ("Ok", "Err"):
+                return x
+            return None
+
+        def m_valid_css(ex, st, c, a, d, ctx=ctx):
+            ok, err = st.fork(), st.fork()
+            v = full(ex, st, a[0])
+            ok.events.append(sym.Event("valid_css", [v], None, len(st.pc)))
+            err.events.append(sym.Event("valid_css-failed", [v], None, len(st.pc)))
+            return [(ok, sym.Agg(d, "Ok", {"0": v}, 0)), (err, sym.Agg(d, "Err", {"0": sym.Opaque("InvalidCss", "invalid-css", ctx)}, 1))]
+
+        def m_start_ns(ex, st, c, a, d, ctx=ctx):
+            ok, err = st.fork(), st.fork()
+            o = sym.Opaque("NsRuleDest", "nested-destination", ctx)
+            e = sym.Event("start_nsrule", a, o, len(st.pc))
+            e.rargs = [full(ex, st, x) for x in a]
+            ok.events.append(e)
+            err.events.append(sym.Event("start_nsrule-failed", a, None, len(st.pc)))
+            return [(ok, sym.Agg(d, "Ok", {"0": o}, 0)), (err, sym.Agg(d, "Err", {"0": sym.Opaque("Invalid", "nsrule-error", ctx)}, 1))]
+
+        models = [
+            (r"^sass::value::Value::evaluate$", fork("evaluate-value", lambda ctx, e: sym.Opaque("css::value::Value", "value", ctx))),
+            (r"^SassString::evaluate$", fork("evaluate-name", lambda ctx, e: sym.Opaque("CssString", "name", ctx))),
+            (r"^CssString::take_value$", m_take_value), (r"^css::value::Value::is_null$", m_is_null), (r"^css::value::Value::valid_css$", m_valid_css),
+            (r"::push_property$", fork("push_property")), (r"::push_custom_property$", fork("push_custom_property")),
+            (r"::start_nsrule$", m_start_ns), (r"^check_body$", fork("check_body")), (r"^handle_body::<", fork("handle_body")),
+            (r"as ResultPos<.*>>::at$|as ResultPos<.*>>::no_pos$|::at::<|::no_pos::<", m_wrap),
+            (r"^<String as Clone>::clone$", lambda ex, st, c, a, d: full(ex, st, a[0])),
+        ] + BASE_MODELS
+        ex = sym.Executor(ctx, models=models, feasibility=E.feasibility(ctx), max_paths=6000)
+        paths = [p for p in ex.run(f, [sym.Ref("val", item), sym.Opaque("&mut dyn CssDestination", "dest", ctx), sym.Opaque("ScopeRef", "scope", ctx),
+                                       sym.Opaque("&mut Context", "fctx", ctx)]) if p.status == "return"]
+        rec.paths += len(paths)
+        bad, n_ok, n_err, unknown = [], 0, 0, 0
+        kinds = set()
+        pushname = "push_custom_property" if arm == "CustomProperty" else "push_property"
+        for i, p in enumerate(paths):
+            ret = p.ret
+            if not (isinstance(ret, sym.Agg) and ret.variant in ("Ok", "Err")):
+                unknown += 1
+                continue
+            names = [e.callee for e in p.events if not e.callee.startswith(("drop", "store"))]
+            failed = [n for n in names if n.endswith("-failed")]
+            if ret.variant == "Err":
+                n_err += 1
+                if not failed:
+                    bad.append("path %d: an error is returned although nothing failed" % i)
+                continue
+            n_ok += 1
+            if failed:
+                bad.append("path %d: completes although %s" % (i, failed[0]))
+                continue
+            ev = [e for e in p.events if e.callee == "evaluate-value"]
+            if arm == "CustomProperty":   # name and value are both interpolated strings; the value is evaluated first
+                ev = [e for e in p.events if e.callee == "evaluate-name"][:1]
+            pu = [e for e in p.events if e.callee == pushname]
+            if len(ev) != 1:
+                bad.append("path %d: the value is evaluated exactly once" % i)
+                continue
+            if arm == "CustomProperty":
+                ok = len(pu) == 1 and pu[0].rargs[2] is ev[0].result
+                kinds.add("pushed")
+            else:
+                nullp = E.decide(ctx, p.pc + ["(not %s)" % isnull.term])["verdict"] == "holds"
+                notnull = E.decide(ctx, p.pc + [isnull.term])["verdict"] == "holds"
+                if nullp:
+                    ok = not pu
+                    kinds.add("null-skipped")
+                elif notnull:
+                    ok = len(pu) == 1 and pu[0].rargs[2] is ev[0].result
+                    kinds.add("pushed")
+                else:
+                    ok = False
+                if arm == "NamespaceRule":
+                    ns = [e for e in p.events if e.callee == "start_nsrule"]
+                    hb = [e for e in p.events if e.callee == "handle_body"]
+                    ok = ok and len(ns) == 1 and len(hb) == 1 and any(x is ns[0].result for x in hb[0].rargs)
+            if not ok:
+                bad.append("path %d: pushed exactly once with the evaluated value unless the value is null" % i)
+        what = {"Property": "a declaration with a non-null value is pushed exactly once with the evaluated value, a null value is skipped, every failure is returned",
+                "CustomProperty": "a custom property is always pushed with its evaluated value, every failure is returned",
+                "NamespaceRule": "the own value (if not null) is pushed, then the nested block is handled in the namespace destination; every failure is returned"}[arm]
+        if n_ok == 0:
+            rec.add("%s arm: a completing path exists (shape not recognised; %d paths with unknown result)" % (arm, unknown), {"verdict": "inconclusive", "per_solver": {}, "time_s": 0})
+            continue
+        rec.add("%s arm (%d completing, %d failing paths): %s" % (arm, n_ok, n_err, what),
+                {"verdict": "holds" if not bad else "violated", "per_solver": {"structural": "; ".join(bad[:3]) or "event identity", "z3+cvc5": "null / non-null decided from the path condition"}, "time_s": 0})
+        need = {"pushed"} if arm == "CustomProperty" else {"pushed", "null-skipped"}
+        if not need <= kinds:
+            rec.add("%s arm: pushed and skipped outcomes explored (%s)" % (arm, sorted(kinds)), {"verdict": "inconclusive", "per_solver": {}, "time_s": 0})
+    return rec
+
+
 def k_value_eq_symmetric(E, tier):
     """C12: css::Value::eq is symmetric as a function of the two values' kinds and of the (symmetric)
     comparisons of their parts: eq(a,b) and eq(b,a) are executed symbolically and must be the same
